@@ -379,6 +379,17 @@ func runC11(c *core.Ctx) {
 			c.Violate("C11:tree-mismatch", "element ids of the idr tree and the mirror disagree", map[string]interface{}{"doc": doc, "key": ctxKey})
 			return
 		}
+		// a logical cost bound instead of a wall clock: every document-wide axis multiplies the work by the size of the document (the engine
+		// re-walks it per context node and reports a node once per route); combinations that exceed the budget are not evaluated
+		wide := strings.Count(ex, "following::") + strings.Count(ex, "preceding::") + strings.Count(ex, "descendant") + strings.Count(ex, "//") + strings.Count(ex, "ancestor")
+		cost := 1.0
+		for i := 0; i < wide; i++ {
+			cost *= float64(len(elemKeys) + 1)
+		}
+		if cost > 5e6 {
+			c.Inc("expressions_over_the_cost_budget")
+			continue
+		}
 		c.Inc("queries")
 		c.Inc("evaluations")
 		// reference
@@ -404,6 +415,10 @@ func runC11(c *core.Ctx) {
 				}
 			}
 		})
+		if len(want) > 5000 {
+			c.Inc("result_sets_over_5000_not_compared") // idr.MatchAll cannot be stopped early
+			continue
+		}
 		// idr
 		var got []c11Key
 		var gerr error
